@@ -2,7 +2,7 @@
 """Regenerates /verif/MANIFEST.json. CLAIMED lists the properties whose checks exist and pass on the unchanged tree."""
 import json, subprocess, os
 
-CLAIMED = os.environ.get("CLAIMED", "C01 C02 C03 C04 C05 C06 C07 C08 C09 C10 C11 C12 C13 C14 C15 C16 C17 C19 C20").split()
+CLAIMED = os.environ.get("CLAIMED", "C01 C02 C03 C04 C05 C06 C07 C08 C09 C10 C11 C12 C13 C14 C15 C16 C17 C18 C19 C20").split()
 
 MC = "explicit-state bounded-exhaustive enumeration of real executions, each compared with a reference model (model checking of the implementation; no sampling)"
 D = {
